@@ -35,6 +35,24 @@ type coSched struct {
 	abort     bool
 	allDone   chan struct{}
 	sites     map[string]int
+	// flushPools empties the runtime's object pools (sync.Pool: fmt, encoding/json, ...) at every task switch. On one P a
+	// task's Get returns what the previous task Put, and under -race that pair is a release / acquire: an incidental
+	// happens-before edge that real parallel executions (per-P pools) do not have and that hides races from the detector.
+	flushPools bool
+	flushes    int
+	site       string // site of the yield being decided
+	sticky     int
+	gwSwitches int
+}
+
+//go:norace
+func (s *coSched) flush() {
+	if s.flushPools {
+		// two collections: the first moves the pools to their victim caches, the second drops those
+		runtime.GC()
+		runtime.GC()
+		s.flushes++
+	}
 }
 
 //go:norace
@@ -91,6 +109,16 @@ func (s *coSched) choose(mustLeave bool) *coTask {
 		}
 	default:
 		stay := !mustLeave && s.next()%1000 >= s.switchPc
+		if !mustLeave && s.sticky > 0 {
+			// the task that took over at a global-write point runs on undisturbed for a while: it is the one that may read the
+			// half-written state before the writer does anything else
+			s.sticky--
+			stay = true
+		}
+		gw := !mustLeave && len(s.site) > 3 && s.site[:3] == "gw "
+		if gw && len(runnable) > 1 && s.next()%2 == 0 {
+			stay = false
+		}
 		c = int(s.next() % uint64(len(runnable)))
 		if stay {
 			for i, t := range runnable {
@@ -98,6 +126,13 @@ func (s *coSched) choose(mustLeave bool) *coTask {
 					c = i
 				}
 			}
+		} else if gw {
+			// leave the writer: any other runnable task
+			if runnable[c] == s.cur {
+				c = (c + 1) % len(runnable)
+			}
+			s.sticky = int(200 + s.next()%4000)
+			s.gwSwitches++
 		}
 	}
 	s.choices = append(s.choices, c)
@@ -112,6 +147,7 @@ func (s *coSched) handoff(self, t *coTask) {
 		return
 	}
 	s.cur = t
+	s.flush()
 	runtime.RaceDisable()
 	t.resume <- struct{}{}
 	<-self.resume
@@ -130,7 +166,10 @@ func (s *coSched) Yield(site string) {
 		return
 	}
 	s.note(site)
-	if t := s.choose(false); t != nil {
+	s.site = site
+	t := s.choose(false)
+	s.site = ""
+	if t != nil {
 		s.handoff(self, t)
 	}
 }
@@ -226,6 +265,7 @@ func (s *coSched) taskDone(self *coTask) {
 	t := s.choose(true)
 	if t != nil {
 		s.cur = t
+		s.flush()
 		runtime.RaceDisable()
 		t.resume <- struct{}{}
 		runtime.RaceEnable()
